@@ -92,6 +92,9 @@ func runE6(p *Program, sp *Spec, c *Collector) {
 	for _, nk := range t.NestedKills {
 		runNestedKills(p, sp, c, nk)
 	}
+	for _, rc := range t.RuleCoverage {
+		runRuleCoverage(p, sp, c, rc)
+	}
 }
 
 // ---------------------------------------------------------------------------------------------
@@ -1740,6 +1743,61 @@ func runNestedKills(p *Program, sp *Spec, c *Collector, nk NestedKillSpec) {
 				c.Ob(nk.Props, "E6.nested-bracket", key, Discharged, "the Exit callback tells nested from outermost occurrences", p.FuncPos(exit), true)
 			default:
 				c.Ob(nk.Props, "E6.nested-bracket", key, Violated, nk.What+": "+enter.Name()+" puts "+gk[strings.LastIndex(gk, ".")+1:]+" into a special state only for some "+rule+" nodes (a test on ctx), "+exit.Name()+" takes it back for every "+rule+" without such a test, and a "+rule+" can occur inside another: the inner one ends the outer one's state early", bad.pos, false)
+			}
+		}
+	}
+}
+
+// ---------------------------------------------------------------------------------------------
+// rule coverage: the grammar spells one notion ("a method is declared") as several rules; the listener must see each of them —
+// by a callback for the rule itself, or because the rule always contains a rule it has a callback for (genericMethodDeclaration
+// wraps methodDeclaration; genericInterfaceMethodDeclaration does NOT wrap interfaceMethodDeclaration).
+type RuleCoverageSpec struct {
+	Props    []string `json:"props"`
+	Pkg      string   `json:"pkg"`
+	Listener string   `json:"listener"`
+	Grammar  string   `json:"grammar"`
+	Rules    []string `json:"rules"`
+	What     string   `json:"what"`
+}
+
+func runRuleCoverage(p *Program, sp *Spec, c *Collector, rc RuleCoverageSpec) {
+	g := sp.G[rc.Grammar]
+	ms := p.methodsDeclaredOn(rc.Pkg, rc.Listener)
+	if g == nil || len(ms) == 0 {
+		c.Anchor(rc.Props, "E6: rule coverage: listener %s.%s / grammar %s does not resolve", rc.Pkg, rc.Listener, rc.Grammar)
+		return
+	}
+	handled := map[string]bool{}
+	for _, fn := range ms {
+		if _, rule, ok := callbackRule(fn.Name()); ok {
+			handled[rule] = true
+		}
+	}
+	for _, r := range rc.Rules {
+		key := "coverage:" + rc.Pkg + "." + rc.Listener + " " + r
+		if _, ok := g.Rules[r]; !ok {
+			c.Anchor(rc.Props, "E6: rule coverage: grammar %s has no rule %s", rc.Grammar, r)
+			continue
+		}
+		switch {
+		case handled[r]:
+			c.Ob(rc.Props, "E6.rule-coverage", key, Discharged, "the listener has a callback for "+r, "", true)
+		default:
+			via := ""
+			for d := range mandatoryDescendants(g, r) {
+				if handled[d] {
+					for _, w := range rc.Rules {
+						if w == d && (via == "" || d < via) {
+							via = d
+						}
+					}
+				}
+			}
+			if via != "" {
+				c.Ob(rc.Props, "E6.rule-coverage", key, Discharged, "every "+r+" contains a "+via+", which the listener handles", "", true)
+			} else {
+				c.Ob(rc.Props, "E6.rule-coverage", key, Violated, rc.What+": the grammar also spells this as rule "+r+", which contains none of the rules the listener handles and has no callback of its own: what is written that way is never seen", p.FuncPos(ms[0]), false)
 			}
 		}
 	}
